@@ -117,7 +117,9 @@ def execute(spec, policy, seed=0, step_budget=40000):
         def logged_disconnect(immediate=False):
             me = run.sched.me()
             if immediate and me is not None and me.name.startswith('net'):
-                run.sched.log('disc_by')        # (the projection attached to the event is the state before the call)
+                import sys as _sys
+                src = 'he' if _sys._getframe(1).f_code.co_name == '_handle_exception' else 'other'
+                run.sched.log('disc_by', src=src)   # (the projection attached to the event is the state before the call)
             return real_disconnect(immediate)
         c.disconnect = logged_disconnect
         if spec.get('listener_reconnect'):
@@ -153,8 +155,18 @@ def lifecycle_events(run):
     """Project the scheduler's event log onto the Trace_Lifecycle events."""
     ev = []
     in_call = {}
+    he_pending = set()
     for e in run.sched.events:
         t, k = e['t'], e['ev']
+        if k == 'acquire' and t in he_pending:
+            # the disconnect issued by a dying thread's error handling takes effect here (the lock is its own): what holds
+            # the slot at this moment is what it tears down
+            he_pending.discard(t)
+            st = e.get('st', {})
+            victim, intr = (st.get('newNt'), st.get('newIntr')) if st.get('newNt') is not None else (st.get('nt'), st.get('ntIntr'))
+            if victim is not None:
+                ev.append({'k': 'he_teardown', 'by': t, 'victim': victim, 'intr': bool(intr)})
+            continue
         if k == 'api_call':
             in_call[t] = {'op': e['op'], 'checked': False}
             ev.append({'k': 'call', 't': t, 'op': e['op']})
@@ -182,10 +194,12 @@ def lifecycle_events(run):
         elif k == 'listener_raise':
             ev.append({'k': 'raise', 'who': t})
         elif k == 'disc_by':
+            if e.get('src') == 'he':
+                he_pending.add(t)
             st = e.get('st', {})
             victim, intr = (st.get('newNt'), st.get('newIntr')) if st.get('newNt') is not None else (st.get('nt'), st.get('ntIntr'))
             if victim is not None:
-                ev.append({'k': 'teardown', 'by': t, 'victim': victim, 'intr': bool(intr)})
+                ev.append({'k': 'teardown', 'by': t, 'victim': victim, 'intr': bool(intr), 'src': e.get('src', 'other')})
     ev.append({'k': 'final'})
     return ev
 
